@@ -207,7 +207,7 @@ def main():
         results[n] = r
         if r['status'] == 'VIOLATED':
             viol.append(r)
-        elif r['status'] not in ('CONFIRMED', 'REFUTED_AS_EXPECTED'):
+        elif r['status'] not in ('CONFIRMED', 'REFUTED_AS_EXPECTED', 'CARVED'):
             inconc.append(r)
     replay_paths = []
     os.makedirs(os.path.join(ROOT, 'replays'), exist_ok=True)
@@ -228,7 +228,8 @@ def main():
     for l in kf_notes:
         print(l)
     n_ok = sum(1 for n in names if results[n]['status'] in ('CONFIRMED', 'REFUTED_AS_EXPECTED'))
-    print(f'{prop} tier={a.tier}: obligations={len(names)} discharged={n_ok} violated={len(viol)} inconclusive={len(inconc)} wall={wall:.1f}s')
+    n_carved = sum(1 for n in names if results[n]['status'] == 'CARVED')
+    print(f'{prop} tier={a.tier}: obligations={len(names)} discharged={n_ok} carved_by_known_findings={n_carved} violated={len(viol)} inconclusive={len(inconc)} wall={wall:.1f}s')
     for r in inconc[:40]:
         print(f"INCONCLUSIVE property={prop} obligation={r['name']} status={r['status']} reason={str(r.get('detail'))[:300]}")
     for r, p in list(zip(viol, replay_paths))[:40]:
@@ -282,7 +283,7 @@ def write_evidence(prop, tier, seed, mod, names, obs, results, viol, inconc, kf_
             'rule': 'one evaluation = one proof obligation (harness over the real code with symbolic arguments, or a kernel '
                     'translated from the source), decided by z3 over all values within its bounds; obligation names are distinct by '
                     'construction; non-trivial = discharged with >= 1 explored path and >= 1 solver query',
-            'obligations': len(names), 'discharged': discharged, 'inconclusive': len(inconc), 'violated': len(viol),
+            'obligations': len(names), 'discharged': discharged, 'carved_by_known_findings': sum(1 for n in names if results[n]['status'] == 'CARVED'), 'inconclusive': len(inconc), 'violated': len(viol),
             'paths': sum(int(results[n].get('paths') or 0) for n in names),
             'solver_queries': sum(int(results[n].get('solver_queries') or 0) for n in names),
             'solver_time_s': round(sum(float(results[n].get('solver_time_s') or 0) for n in names), 2),
